@@ -106,12 +106,15 @@ thread_local! {
     /// Output floats are logged as round(value * scale) when that is within
     /// 1e-3 of an integer (RTL-SDR decode: scale 125).
     pub static NUM_SCALE: std::cell::Cell<Float> = const { std::cell::Cell::new(1.0) };
+    /// Outputs that are integers up to floating-point rounding (FFT filters on
+    /// integer inputs) are logged as the nearest integer if within 1e-3.
+    pub static NUM_ROUND: std::cell::Cell<bool> = const { std::cell::Cell::new(false) };
     /// Data of the last source block built (sources have no input ports).
     pub static SRC_DATA: std::cell::RefCell<Vec<i64>> = const { std::cell::RefCell::new(Vec::new()) };
 }
 fn f_num(f: Float) -> Option<i64> {
     let s = NUM_SCALE.with(|c| c.get());
-    if s != 1.0 {
+    if s != 1.0 || NUM_ROUND.with(|c| c.get()) {
         let x = f * s;
         return if x.is_finite() && (x - x.round()).abs() < 1e-3 && x.abs() < 16_000_000.0 { Some(x.round() as i64) } else { None };
     }
@@ -161,6 +164,10 @@ impl Val for Complex {
         }
     }
     fn generate(kind: &str, i: usize, rng: &mut Rng) -> Self {
+        if let Some(v) = kind.strip_prefix("litc:") {
+            let mut it = v.split(',').map(|x| x.parse::<Float>().unwrap_or(0.0));
+            return Complex::new(it.next().unwrap_or(0.0), it.next().unwrap_or(0.0));
+        }
         Complex::new(gen_float(kind, i, rng), gen_float(kind, i + 7919, rng))
     }
 }
@@ -704,6 +711,7 @@ pub fn run_scenario(spec: &Value) -> Vec<Value> {
     SRC_DATA.with(|d| d.borrow_mut().clear());
     crate::blocks::TMPDIRS.with(|t| t.borrow_mut().clear());
     NUM_SCALE.with(|c| c.set(1.0));
+    NUM_ROUND.with(|c| c.set(false));
     rustradio::verif::trace_start();
     let mut log = Vec::new();
     let made = catch(|| crate::blocks::make(spec, &mut data_rng));
@@ -725,6 +733,7 @@ pub fn run_scenario(spec: &Value) -> Vec<Value> {
     NUM_SCALE.with(|c| c.set(spec["in_scale"].as_f64().unwrap_or(1.0) as Float));
     let inputs_json = json!(rig.ins.iter().map(|p| p.nums().iter().map(|x| json!(x.unwrap_or(NONUM))).collect::<Vec<_>>()).collect::<Vec<_>>());
     NUM_SCALE.with(|c| c.set(spec["out_scale"].as_f64().unwrap_or(1.0) as Float));
+    NUM_ROUND.with(|c| c.set(spec["out_round"].as_bool().unwrap_or(false)));
     log.push(json!({"ev": "scenario", "block": spec["block"], "params": spec["params"], "mode": spec["mode"],
         "nin": rig.ins.len(), "nout": rig.outs.len(),
         "totals": rig.ins.iter().map(|p| p.total()).collect::<Vec<_>>(),
